@@ -19,3 +19,13 @@ def c20_lazy_module_keeps_mock():
     stale = lb is not None and lb.connect is not orig
     sys.modules.pop("obligations.vfmods.lazyb", None)
     return stale, f"after the with-block obligations.vfmods.lazyb.connect is {'a stale MagicMock' if stale else 'the original'}"
+
+
+def c16_identifier_backslash():
+    from vf.real import real_conn
+
+    fs, conn = real_conn()
+    sql = 'select 1 as "a\\\\n"'  # the identifier text is  a \\ \\ n  (two backslashes)
+    direct = [d.name for d in conn.cursor().execute(sql).description]
+    via = [d.name for d in list(conn.execute_string(sql))[0].description]
+    return direct != via, f"{sql!r}: column name direct {direct!r}, via execute_string {via!r}"
